@@ -32,6 +32,7 @@ def check(ctx, tier):
     early_return(ctx, tk, f)
     sample_cast(ctx, tk, f)
     values_writers(ctx, tk)
+    fast_dtype(ctx, tk)
     C11.ownership(ctx, tk)
     for o in ctx.obligations:
         if o.rule == "C11.a":
@@ -39,6 +40,8 @@ def check(ctx, tier):
     hazards.h1_buffered_updates(ctx, tk, "C12.c", [f])
     W.report(ctx, tk, "C12.g", [f, ctx.func("hashtable.Counter.__init__"), ctx.func("raggedshape.RaggedView._get_flat_indices_fast"),
                                 ctx.func("raggedshape.RaggedShape._broadcast_values_fast")])
+    from .. import hazards as _hz, scopes as _sc
+    _hz.generic(ctx, tk, "C12.z", _sc.scope(tk, "C12"))
     return {}
 
 
@@ -248,3 +251,21 @@ def values_writers(ctx, tk):
                     and f.params and sub.value.id == f.params[0]:
                 ctx.decide("C12.e", f, "only the designated operations replace the counts/values", f.name in VALUES_WRITERS,
                            "%s re-assigns _values" % q, node=sub, engine="E3")
+
+
+def fast_dtype(ctx, tk):
+    f = ctx.func("raggedshape.RaggedShape._broadcast_values_fast")
+    fa = ctx.fa(f)
+    for r in fa.cfg.returns():
+        tm = fa.term(r.ast.value, r)
+        base = tm
+        while base.k == "upd":
+            base = base.a[0]
+        what = "the fast broadcast returns an array of the requested dtype (the typed builder, accumulated in place)"
+        if np_call(base, {"zeros", "empty", "full"}) and "dtype" in dict(base.a[2]):
+            ctx.holds("C12.h", f, what, node=r.ast, engine="E6")
+        elif tm.k == "call" and any(y.k == "attr" and y.a[1] == "accumulate" for y in alts(tm.a[0])) and "out" not in dict(tm.a[2]) and "dtype" not in dict(tm.a[2]):
+            ctx.violated("C12.h", f, what, "`%s` returns a new accumulate result: for 8/16/32-bit data add.accumulate widens to the platform integer, so the result no "
+                         "longer has the requested dtype" % (tm,), node=r.ast, engine="KB")
+        else:
+            ctx.unknown("C12.h", f, what, node=r.ast, engine="E6")
